@@ -163,20 +163,35 @@ class SymSeq(SeqContent):
 
 
 class Site:
-    """One emitting site of a comprehension bag: {elem | vars : cond}."""
+    """One emitting site of a comprehension bag: {elem | bvars : cond}.
 
-    def __init__(self, label, bvars, cond, elem):
+    `hvars` are symbols created while executing the loop body (havoc'd loop state of inner invariant
+    loops, results of callee contracts): they stand for the *actual* values computed by the code, of
+    which only `cond_h` is known.  Universal statements quantify over them; existential statements
+    (membership) must hold for every value satisfying cond_h."""
+
+    def __init__(self, label, bvars, cond, elem, hvars=(), cond_h=None):
         self.label = label
-        self.bvars = list(bvars)      # z3 constants bound at this site
+        self.bvars = list(bvars)      # z3 constants bound at this site (loop variables)
         self.cond = cond              # z3 Bool over bvars + free symbols
-        self.elem = elem              # Value over bvars + free symbols
+        self.elem = elem              # Value over bvars + hvars + free symbols
+        self.hvars = list(hvars)
+        self.cond_h = cond_h if cond_h is not None else z3.BoolVal(True)
 
     def rename(self, ctx):
         """A copy with fresh bound variables (alpha-renaming)."""
-        fresh = [ctx.fresh(str(v).split("!")[0], v.sort()) for v in self.bvars]
-        sub = list(zip(self.bvars, fresh))
-        return Site(self.label, fresh, z3.substitute(self.cond, *sub) if sub else self.cond,
-                    vsubst(self.elem, sub))
+        allv = self.bvars + self.hvars
+        fresh = [ctx.fresh(str(v).split("!")[0], v.sort()) for v in allv]
+        sub = list(zip(allv, fresh))
+        nb = len(self.bvars)
+        return Site(self.label, fresh[:nb], z3.substitute(self.cond, *sub) if sub else self.cond,
+                    vsubst(self.elem, sub), fresh[nb:], z3.substitute(self.cond_h, *sub) if sub else self.cond_h)
+
+    def full_cond(self):
+        return z3.And(self.cond, self.cond_h)
+
+    def all_vars(self):
+        return self.bvars + self.hvars
 
 
 class CompBag(SeqContent):
